@@ -83,7 +83,7 @@ def must_refuse_edits(cfg, iso, shadow):
         for p in dirs[ns][:2]:
             yield 'dup-dir-over-dir:' + ns, (lambda p=p, kw=kw, extra=extra: iso.add_directory(**dict({kw: p}, **extra)))
             yield 'dup-file-over-dir:' + ns, (lambda p=p, kw=kw, extra=extra: iso.add_fp(fp(), 5, **dict({kw: p}, **extra)))
-    lvl = cfg.level
+    lvl = max(cfg.level, getattr(iso, 'interchange_level', cfg.level))      # a reopened object works at the level it inferred
     bad = ['/X.;0', '/Y.;32768', '/Z.;A', '/.;1', '/A;1;2', '/W.;+1', '/V.;1_0', '/U.; 1', '/T.;00001x']
     if lvl < 4:
         bad += ['/lower.;1', '/A B.;1', '/A-B.;1', '/É.;1']
@@ -119,6 +119,53 @@ def must_refuse_edits(cfg, iso, shadow):
                 except Exception:
                     ok = False
         # only meaningful when the chain exists; the harness builds it in a dedicated case below
+
+
+def record_fit_sweep(ctx):
+    """identifier lengths around the capacity of the one-byte record length, for every combination of level, XA and Rock Ridge,
+    files and directories: an edit is either refused at once or the image can be written (and names the entry)"""
+    import pycdlib
+    quick = ctx.tier == 'quick'
+    for lvl in (2, 3, 4):
+        for xa in (False, True):
+            for rrv in (None, '1.09', '1.12'):
+                for isdir in (False, True):
+                    lens = list(range(196, 232)) if not quick else list(range(200, 226, 1 if xa else 3))
+                    for L in lens:
+                        iso = pycdlib.PyCdlib()
+                        kw = {'interchange_level': lvl, 'xa': xa}
+                        if rrv:
+                            kw['rock_ridge'] = rrv
+                        iso.new(**kw)
+                        name = ('D' * L) if isdir else ('F' * (L - 3) + '.;1')
+                        rr = {'rr_name': 'n'} if rrv else {}
+                        ctx.case(('fit', lvl, xa, rrv, isdir, L), True)
+                        try:
+                            if isdir:
+                                iso.add_directory(iso_path='/' + name, **rr)
+                            else:
+                                iso.add_fp(io.BytesIO(b'x'), 1, iso_path='/' + name, **rr)
+                        except pycdlib.pycdlibexception.PyCdlibInvalidInput:
+                            iso.close()
+                            continue
+                        except Exception as e:
+                            ctx.violation('c13:record-fit:fault:%s' % type(e).__name__, 'C13: adding a %s with a %d-byte identifier (level %d, xa=%s, '
+                                          'rock ridge %s) raises %s instead of the invalid-input error' % ('directory' if isdir else 'file', L, lvl, xa,
+                                                                                                          rrv, type(e).__name__),
+                                          {'level': lvl, 'xa': xa, 'rr': rrv, 'dir': isdir, 'length': L})
+                            iso.close()
+                            continue
+                        try:
+                            img, _ = sysimg.master(iso)
+                            iso2 = syslevel.reopen(img)
+                            iso2.get_record(iso_path='/' + name)
+                            iso2.close()
+                        except Exception as e:
+                            ctx.violation('c13:record-fit:accepted-then-fails', 'C13: a %s with a %d-byte identifier (level %d, xa=%s, rock ridge %s) is '
+                                          'accepted by the edit but the image cannot be written / read back: %s: %s'
+                                          % ('directory' if isdir else 'file', L, lvl, xa, rrv, type(e).__name__, str(e)[:80]),
+                                          {'level': lvl, 'xa': xa, 'rr': rrv, 'dir': isdir, 'length': L})
+                        iso.close()
 
 
 def shadow_of(iso, cfg):
@@ -185,6 +232,16 @@ def run(ctx):
         if b.fail is not None:
             continue
         iso = b.iso
+        if i % 2 == 1:
+            # the same catalogue against the object obtained by writing and reopening (duplicate detection must not rely on
+            # bookkeeping that only exists in the session that created the entries)
+            try:
+                img, _ = sysimg.master(iso)
+                iso.close()
+                iso = syslevel.reopen(img)
+                ctx.count('catalogue-on-reopened')
+            except Exception:
+                continue
         try:
             sh = shadow_of(iso, cfg)
             for cause, call in must_refuse_edits(cfg, iso, sh):
@@ -212,6 +269,7 @@ def run(ctx):
                     break          # the object is no longer the one the catalogue was computed for
         finally:
             iso.close()
+    record_fit_sweep(ctx)
     # depth rule
     for lvl in (1, 2, 3):
         iso = pycdlib.PyCdlib()
